@@ -1699,12 +1699,10 @@ def r086(P, u, rep):
         raise AnalysisBroken('expression nesting too deep for the ownership analysis')
     unit_of = {un.name: un for un in units}
 
-    def pname(fn, i):
-        for un in units:
-            ps = un.params(fn) if (fn in un.functions) else None
-            if ps is not None:
-                return (ps[i].name or 'arg%d' % (i + 1)) if i < len(ps) else 'arg%d' % (i + 1)
-        return 'arg%d' % (i + 1)
+    def pname(caller_unit, fn, i):
+        fk = own.resolve(caller_unit, fn)
+        ps = unit_of[fk[0]].params(fn) if fk else []
+        return (ps[i].name or 'arg%d' % (i + 1)) if i < len(ps) else 'arg%d' % (i + 1)
 
     what_shared = ('an object it did not create (reached through a `Type *` field or a global, or returned by a call that may yield an existing type: a typedef\'d type, '
                    'ty_int, the type of another declaration)')
@@ -1728,7 +1726,7 @@ def r086(P, u, rep):
             fields = sorted('%s.%s' % f for f in fields if f[1] not in _NOT_DESCRIPTIVE)
             if not fields:
                 continue
-            key = '%s:%s:owned-object-write/%s(%s)' % (un, fn, callee, pname(callee, i))
+            key = '%s:%s:owned-object-write/%s(%s)' % (un, fn, callee, pname(un, callee, i))
             where = '%s:%d' % (un, line)
             if not atoms:
                 continue            # a null argument
@@ -1737,7 +1735,7 @@ def r086(P, u, rep):
                 continue
             rep.ob('R08.6', key, SHARED not in atoms,
                    '%s() hands %s() as `%s` %s; %s() stores into it (%s): the change is seen by every other user of the same type object' % (
-                       fn, callee, pname(callee, i), what_shared.replace('it did not create', '%s() did not create' % fn), callee, ', '.join(fields)),
+                       fn, callee, pname(un, callee, i), what_shared.replace('it did not create', '%s() did not create' % fn), callee, ', '.join(fields)),
                    where=where, facts={'may-point-to': sorted(str(a) for a in atoms), 'fields': fields})
 
 
